@@ -56,9 +56,7 @@ def _dtype_arrays(d, tier, lens=(1, 2, 3, 5), last_only=False):
     return out
 
 
-def cases(tier, seed):
-    b = BOUNDS[tier]
-    # slices
+def _slice_cases(b, tier):
     for n in range(1, b["slice_full_max_len"] + 1):
         for w in U.words(INT_AB, n):
             for s in U.all_slices(n):
@@ -76,7 +74,20 @@ def cases(tier, seed):
             bounds = sorted({-n - 2, -n - 1, -n, -1, 0, 1, n - 1, n, n + 1})
             for s in U.all_slices(n, bounds=[None] + bounds, steps=[None, -1, 2, -3]):
                 yield {"k": "slice", "dtype": d, "a": w, "s": s}
+
+
+def cases(tier, seed):
+    b = BOUNDS[tier]
+    # slices whose bounds lie inside the array (those that need clamping come last in the exhaustive part)
+    for c in _slice_cases(b, tier):
+        if not U.slice_out_of_range(len(c["a"]), c["s"]):
+            yield c
     # integer positions
+    for n in range(1, 5):
+        for w in U.words(INT_AB, n):
+            for i in range(-n, n):
+                for idt in ("int64", "int8") + (("uint8",) if i >= 0 else ()):
+                    yield {"k": "int", "dtype": "int64", "a": w, "i": i, "idx_dtype": idt}
     for d in b["dtypes"]:
         nmax = b["int_max_len"] if d in ("int64", "float64") else b["int_max_len_other_dtypes"]
         for name, alpha in U.alphabets(d, tier):
@@ -128,6 +139,9 @@ def cases(tier, seed):
             wins = _windows(len(w))
             for combo in itertools.product(wins, repeat=2):
                 yield {"k": "ragged", "dtype": d, "a": w, "starts": [c[0] for c in combo], "stops": [c[1] for c in combo]}
+    for c in _slice_cases(b, tier):
+        if U.slice_out_of_range(len(c["a"]), c["s"]):
+            yield c
     if b["random"]:
         yield from _random_cases(b, tier, seed)
 
@@ -207,7 +221,7 @@ def _describe(case):
         s = case["s"]
         return f"rla({a})[{s[0]}:{s[1]}:{s[2]}]"
     if k == "int":
-        return f"rla({a})[{case['i']}]"
+        return f"rla({a})[{case['i']}]" if "idx_dtype" not in case else f"rla({a})[np.{case['idx_dtype']}({case['i']})]"
     if k == "list":
         return f"rla({a})[{case['idx']}]"
     if k == "array":
@@ -233,7 +247,7 @@ def check(case):
             idx = slice(*case["s"])
             exp = a[idx]
         elif k == "int":
-            idx = case["i"]
+            idx = case["i"] if "idx_dtype" not in case else np.dtype(case["idx_dtype"]).type(case["i"])
             exp = a[idx]
         elif k == "list":
             idx = list(case["idx"])
